@@ -17,6 +17,7 @@ type usedKey struct {
 	key       []byte
 	retiredAt int // number of data messages the party had emitted when the pair was seen retired; -1 = live
 	disclosed bool
+	old       bool // belongs to a session that a refresh exchange has replaced
 }
 
 // C09: MAC keys are disclosed only once retired, and then they are disclosed
@@ -66,9 +67,24 @@ func genC09(c *Ctx) {
 				emitted[who]++
 			}
 		}
+		sess := map[int][8]byte{1: s.ps[1].c.GetSSID(), 2: s.ps[2].c.GetSSID()}
 		afterCall := func(who int) {
 			km := otr3.VerifKeys(s.ps[who].c)
+			if id := s.ps[who].c.GetSSID(); id != sess[who] {
+				// a refresh exchange has replaced the session: every key pair of the old one is retired by that
+				sess[who] = id
+				for _, u := range used[who] {
+					if u.retiredAt < 0 {
+						u.retiredAt = emitted[who]
+					}
+					u.old = true
+				}
+				c.Count("session-replaced-by-refresh")
+			}
 			for _, u := range used[who] {
+				if u.old {
+					continue
+				}
 				if u.retiredAt < 0 && (u.pair[0]+1 < km.OurKeyID || u.pair[1]+1 < km.TheirKeyID) {
 					u.retiredAt = emitted[who]
 				}
@@ -80,12 +96,27 @@ func genC09(c *Ctx) {
 		if faulty {
 			c.Count("history:with-randomness-faults")
 		}
+		refreshes := 0
+		if i%3 == 1 && !faulty {
+			refreshes = 1 + c.R.Intn(2)
+			c.Count("history:with-refresh-exchange")
+		}
 		for k := 0; k < steps; k++ {
 			a := 1 + c.R.Intn(2)
 			if mode == 1 && c.R.Chance(4, 5) {
 				a = 1
 			}
 			b := 3 - a
+			if refreshes > 0 && k > 6 && c.R.Chance(1, 8) {
+				// a key exchange while encrypted: b's query arrives at a, the exchange runs inside the traffic that follows
+				refreshes--
+				before := len(s.ps[a].outs)
+				s.tick(200) // (a query that follows a key exchange within a minute is taken for an echo and ignored)
+				s.Query(b, a)
+				afterCall(a)
+				audit(a, s.ps[a].outs[before:], nil)
+				continue
+			}
 			sendP := 4
 			if mode == 2 {
 				sendP = 6
